@@ -287,7 +287,7 @@ theorem active_unregAll (q : Q) (cn : Conn) (s : State) (ws : List W)
       have h2 := hb d sh
       by_cases e : w.regDb = d ∧ shardOf w.key = sh
       · have e' : (w.regDb, shardOf w.key) = (d, sh) := by rw [e.1, e.2]
-        simp only [e', e, if_true, and_self] at h1 ⊢
+        simp only [e, if_true, and_self] at h1 ⊢
         unfold two64 at h2 ⊢
         omega
       · have e' : ¬ (w.regDb, shardOf w.key) = (d, sh) := by
